@@ -104,6 +104,17 @@ fn gen_plan(seed: u64) -> AliasPlan {
         let b2 = *r.pick(BASES);
         pool.push(splits(b2, nl, &mut r));
     }
+    if r.chance(10) {
+        // twins that differ only by trailing NUL characters in one value (a key that is padded, or
+        // that forgets the length, confuses them)
+        let base_t = splits(base, nl, &mut r);
+        let at = r.below(nl as u64) as usize;
+        for pad in ["", "\u{0}", "\u{0}\u{0}"] {
+            let mut t = base_t.clone();
+            t[at] = format!("{}{}", t[at], pad);
+            pool.push(t);
+        }
+    }
     if r.chance(12) {
         // long values of equal length that share a long head and differ only at the very end
         let len = *r.pick(&[31usize, 32, 33, 40, 64, 65, 100, 300]);
